@@ -1240,7 +1240,7 @@ def find(req):
         return r
 
     # ---- explicit limits
-    if generic or "read_file" in ob:
+    if generic or "read_file" in ob or "router.py::" in ob:
         r = hit(limits_read_file() or limits_file_types())
         if r:
             return r
